@@ -100,6 +100,7 @@ type World struct {
 	step   int64
 	timers []*timer
 	tseq   int64
+	stale  int
 	dead   bool
 	res    Result
 	fin    chan struct{}
@@ -307,7 +308,8 @@ func (w *World) fireTimers() {
 	if len(w.timers) == 0 {
 		return
 	}
-	fired := false
+	fired := w.stale > 0
+	w.stale = 0
 	for _, tm := range w.timers {
 		if !tm.done && tm.at <= w.now {
 			tm.done = true
@@ -592,6 +594,44 @@ func (w *World) WaitCond(what string, cond func() bool) {
 		return
 	}
 	w.block(what, cond)
+}
+
+// TasksDone reports whether every task with the given name that was spawned at or after
+// fromID has finished (no scheduling point; usable inside conditions).
+func (w *World) TasksDone(name string, fromID int) bool {
+	for _, t := range w.tasks {
+		if t.id >= fromID && t.name == name && !t.done {
+			return false
+		}
+	}
+	return true
+}
+
+func (w *World) NumTasks() int { return len(w.tasks) }
+
+// WaitCondTimeout is WaitCond with a deadline on the simulated clock; it reports whether cond held.
+func (w *World) WaitCondTimeout(what string, d time.Duration, cond func() bool) bool {
+	if cond() {
+		return true
+	}
+	until := w.now + int64(d)
+	tm := w.addTimer(d, nil, nil)
+	w.block(what, func() bool { return cond() || w.now >= until })
+	if !tm.done {
+		tm.done = true
+		w.stale++
+	}
+	return cond()
+}
+
+// WaitCondSteps is WaitCond with a budget of scheduler steps; it reports whether cond held.
+func (w *World) WaitCondSteps(what string, steps int64, cond func() bool) bool {
+	if cond() {
+		return true
+	}
+	until := w.step + steps
+	w.block(what, func() bool { return cond() || w.step >= until })
+	return cond()
 }
 
 func FreeOSMemory() {}
